@@ -26,7 +26,9 @@ func C17_caller_bytes() {
 	// the client state as applications hold it: alone, or with the extension / fragmentation
 	// flags that come with negotiated extensions
 	st := ws.StateClientSide | []ws.State{0, ws.StateExtended, ws.StateFragmented | ws.StateExtended}[vChoose("stateflags", 3)]
-	switch vChoose("api", 6) {
+	api := vChoose("api", 6)
+	var ckey [4]byte
+	switch api {
 	case 0:
 		vAssert(WriteClientMessage(dst, ws.OpBinary, p) == nil, "caller.writemessage_ok")
 	case 1:
@@ -43,10 +45,36 @@ func C17_caller_bytes() {
 		w.Write(p)
 		w.Flush()
 	case 3:
-		cw := NewCipherWriter(dst, [4]byte{vU8("k0"), vU8("k1"), vU8("k2"), vU8("k3")})
+		ckey = [4]byte{vU8("k0"), vU8("k1"), vU8("k2"), vU8("k3")}
+		cw := NewCipherWriter(dst, ckey)
 		cw.Write(p)
 	}
 	vAssert(vEqBytes(p, keep), "caller.bytes_intact")
+	// what reached the destination is the caller's data (other goroutines recycle the pools during
+	// every destination write: a buffer released too early does not survive that)
+	if api == 3 {
+		ok := len(dst.all) == n
+		for i := 0; ok && i < n; i++ {
+			if n <= 130 || i == 0 || i >= n-2 {
+				ok = vConcrete(vIte(dst.all[i]^ckey[i%4] == keep[i], 1, 0)) == 1
+			}
+		}
+		vAssert(ok, "caller.destination_got_the_data")
+	} else {
+		fs, ok := vParseFrames(dst.all)
+		var got []byte
+		for _, f := range fs {
+			got = append(got, f.payload...)
+		}
+		vAssert(vAnd(ok, len(got) == n), "caller.destination_got_whole_frames")
+		if ok && len(got) == n {
+			if n <= 130 {
+				vAssert(vEqBytes(got, keep), "caller.destination_got_the_data")
+			} else {
+				vAssert(vAnd(got[0] == keep[0], vAnd(got[n-1] == keep[n-1], vAnd(got[n-2] == keep[n-2], got[n/2] == keep[n/2]))), "caller.destination_got_the_data")
+			}
+		}
+	}
 	// ... and stays the caller's: later users of the library's pools do not get to write into it
 	vPoisonPools()
 	vAssert(vEqBytes(p, keep), "caller.bytes_intact_after_pool_reuse")
